@@ -597,6 +597,14 @@ BD_Shape<T>::concatenate_assign(const BD_Shape& y) {
     PPL_ASSERT(OK());
     return;
   }
+  // If `y' is marked empty (in any dimension), the result is empty:
+  // its matrix is meaningless and must not be copied.
+  if (y.marked_empty()) {
+    add_space_dimensions_and_embed(y_space_dim);
+    set_empty();
+    PPL_ASSERT(OK());
+    return;
+  }
   // First we increase the space dimension of `x' by adding
   // `y.space_dimension()' new dimensions.
   // The matrix for the new system of constraints is obtained
